@@ -73,6 +73,24 @@ CHECKS["C13"] = dict(tech=VARTECH + "; snps --aggregate via ObsC03", ref="7 C13"
 CHECKS["C14"] = dict(tech=VARTECH, ref="7 C14",
     text="Each layout is rendered both ways (join, complement, complement(join), join(complement,...) vs GFF rows with GFF3 phases); per sequence the two real outputs must be equal multisets, both position-sorted.",
     note="Layouts expressible in both formats; mixed-strand joins are outside the domain.")
+UDTECH = ("TLA+ theory of updown (UpDown.tla): the tract scanner, balance() and the --dist-push map are checked by TLC against the declarative ListRow / relational EvenFill / "
+          "k-smallest-distances definitions (MCUpDown); TLC-enumerated size x supply points, dist/push/threshold settings and list rows rendered as alignments and replayed into "
+          "updown.List / updown.TopRanking in all four csv/fasta combinations; outputs validated by TLC (ObsUpDown)")
+CHECKS["C08"] = dict(tech=UDTECH, ref="7 C08",
+    text="Bounded-exhaustive over requested sizes and bin supplies in (0..2)^4 (thorough (0..3)^4) in the model; the same points as real alignments (sampled in quick, all in thorough); "
+         "bin, distance, order within bin and thresholds are exact, the allocation among bins is judged relationally (EvenFill).",
+    note="A/C/G/T references; thresholds multiples of 1/4; the -1 'easter egg' sizes are undocumented and excluded.")
+CHECKS["C09"] = dict(tech=UDTECH, ref="7 C09",
+    text="For every vector with the combos flag the harness derives the CSVs with the real updown list and runs all four input-type combinations; TLC requires the three others to be byte-identical to fasta/fasta.",
+    note="Byte comparison is done by the harness; 1-3 queries per vector.")
+CHECKS["C10"] = dict(tech=UDTECH, ref="7 C10",
+    text="Every row over {same, snp, ambiguous} of length <=6 (7) and every (reference symbol, symbol) pair: the printed row equals ListRow; losslessness (Reconstruct(ListRow(s)) = s up to ambiguous identity) is a TLC-checked theorem of the definition.",
+    note="updown list is also run on IUPAC reference symbols (width 1).")
+CHECKS["C16"] = dict(
+    tech="TLA+ line-kind scanner (FastaScan.tla) stepped by TLC against Records and the statement's error classes for every stream of <=4 (5) lines (MCFasta); the same streams x line-end layouts fed to the five real readers and judged by TLC (ObsC16); seeded structured byte mutation for totality",
+    text="Exhaustive at the line-kind abstraction up to the bound: valid => identical records in every reader (+ score / base counts), error class => error in every validating reader, anything => no panic or hang.",
+    note="Byte-level part is seeded structured mutation, not coverage-guided fuzzing; blank-line / no-ID / empty-record streams are 'read or refused'.",
+    ref="7 C16, 8")
 PENDING = {}
 ALL = ["C%02d" % i for i in range(1, 20)]
 
